@@ -112,12 +112,6 @@ Fixpoint is_prefix_of (p s : bytes) : bool :=
   | _, [] => false
   end.
 
-(* is there a writer that can flush anywhere in the Unwrap chain? *)
-Fixpoint can_flush (w : shape) : bool :=
-  match w with
-  | Shape fe fl u => fe || fl || match u with Some w' => can_flush w' | None => false end
-  end.
-
 (* The calls of one session, in order, with the log before them:
    - a Send's accepted bytes are the message's encoding if it returned nil, a prefix of it otherwise;
    - a Flush that returned nil leaves a successful writer flush after the last Write;
@@ -145,16 +139,6 @@ Definition session_ok (calls : list scall) (rs : list cres) : bool :=
 
 Definition has_write_header (code : N) (l : list wcall) : bool :=
   existsb (fun c => match c with LWriteHeader c' => (c' =? code)%N | _ => false end) l.
-
-(* did anything reach the client: an accepted Write or a successful flush *)
-Definition sent_something (l : list wcall) : bool :=
-  existsb (fun c => match c with LWrite _ _ => true | LFlush e => (e =? 0)%N | _ => false end) l.
-
-Definition expected_lei (h : list bytes) : field :=
-  match h with
-  | v :: _ => match v with [] => None | _ => if no_nlb v then Some v else None end
-  | [] => None
-  end.
 
 Definition field_eqb (a b : field) : bool :=
   match a, b with
@@ -189,8 +173,7 @@ Definition holds_session (i o : val) : bool :=
         (* the writer cannot flush: nobody is subscribed, the answer is 500 *)
         match sub with None => true | Some _ => false end && has_write_header 500 server
       else
-        let accepted_req := match ons with Some o' => os_ok o' | None => true end in
-        if negb accepted_req then
+        if negb (request_accepted ons) then
           (* rejected: no subscription, and the server itself writes nothing *)
           match sub with None => true | Some _ => false end &&
           match server with [] => true | _ => false end &&
@@ -201,10 +184,7 @@ Definition holds_session (i o : val) : bool :=
           | Some (topics, lei) =>
               field_eqb lei (expected_lei h) &&
               list_eqb bytes_eqb topics
-                       (match ons with
-                        | Some o' => match os_topics o' with [] => [default_topic] | t => t end
-                        | None => [default_topic]
-                        end) &&
+                       (expected_topics ons) &&
               session_ok (firstn (length rs) calls) rs &&
               (* the provider refused before anything was sent: the answer is 500 *)
               match perr with
